@@ -1015,6 +1015,37 @@ def wide_type_programs(n):
     return [("wide%d_codata" % n, co), ("wide%d_data" % n, da)]
 
 
+def long_name_programs():
+    """type names (declared, or instances of nested parameterised types) of 20..130 characters, each used by several case /
+    new expressions, and pairs of types that agree in their first characters: whatever the label scheme does with long
+    names, two tables must not end up with one label"""
+    out = []
+    for ln in (20, 58, 62, 66, 130):
+        b = "T" + "a" * (ln - 2)
+        src = ("data %sP { Ap, Bp(v: i64) }\ndata %sQ { Aq, Bq(v: i64) }\ncodata %sR { ap(x: i64): i64 }\n" % (b, b, b) +
+               "def f1(x: %sP): i64 { x.case { Ap => 1, Bp(v) => v } }\ndef f2(x: %sP): i64 { x.case { Ap => 2, Bp(v) => v + 1 } }\n" % (b, b) +
+               "def g1(x: %sQ): i64 { x.case { Aq => 3, Bq(v) => v + 2 } }\ndef g2(x: %sQ): i64 { x.case { Aq => 4, Bq(v) => v + 3 } }\n" % (b, b) +
+               "def h1(): %sR { new { ap(x) => x + 1 } }\ndef h2(): %sR { new { ap(x) => x + 2 } }\n" % (b, b) +
+               "def main(): i64 { println_i64(f1(Ap)); println_i64(f2(Bp(5))); println_i64(g1(Aq)); println_i64(g2(Bq(6))); "
+               "println_i64(h1().ap(1)); println_i64(h2().ap(1)); 0 }\n")
+        out.append(("longname%d" % ln, src))
+    for depth in (1, 2, 3, 4):
+        t = "i64"
+        for _ in range(depth):
+            t = "Pair[%s, %s]" % (t, t)
+        v = "1"
+        for _ in range(depth):
+            v = "MkPair(%s, %s)" % (v, v)
+        e = "Either[%s, %s]" % (t, t)
+        src = ("data Pair[A, B] { MkPair(fst: A, snd: B) }\ndata Either[A, B] { Left(l: A), Right(r: B) }\n"
+               "def isLeft(e: %s): i64 { e.case[%s, %s] { Left(l) => 1, Right(r) => 0 } }\n"
+               "def isRight(e: %s): i64 { e.case[%s, %s] { Left(l) => 0, Right(r) => 1 } }\n"
+               "def main(): i64 { println_i64(isLeft(Left(%s))); println_i64(isRight(Left(%s))); println_i64(isLeft(Right(%s))); 0 }\n"
+               % (e, t, t, e, t, t, v, v, v))
+        out.append(("longinst%d" % depth, src))
+    return out
+
+
 def check_C14(tier):
     stages.EFFECTS_LIMIT = T(tier, 6, None)
     import native, refine, time, collections
@@ -1046,6 +1077,9 @@ def check_C14(tier):
         for nm, src in wide_type_programs(wn):
             adv.append({"name": nm, "kind": "fun", "src": src})
             meta[nm] = {"src": src, "origin": "wide-type"}
+    for nm, src in long_name_programs():
+        adv.append({"name": nm, "kind": "fun", "src": src})
+        meta[nm] = {"src": src, "origin": "long-name"}
     # type-label / clause-label clash: label numbers depend on everything the process compiled before, so the base program is
     # compiled alone in a fresh process, the clash is constructed from the labels seen there, and the variant is compiled alone too
     tclash_arts = []
